@@ -2,7 +2,7 @@
 From stdpp Require Import base list option numbers.
 From RecordUpdate Require Import RecordUpdate.
 From Incr.Model Require Import Base Live Engine Api.
-From Incr.Proofs Require Import Pres FrameStatus Heights.
+From Incr.Proofs Require Import Pres FrameStatus Heights OkPres HeightLimit FrameHeightLimit Histories.
 Local Open Scope Z_scope.
 
 (* every height the engine ever assigns goes through set_height.  While the greatest height seen is
@@ -55,6 +55,19 @@ Theorem C19_cycle_is_reported :
   forall oc op child s, debug s = false -> (ensure_height_requirement oc op child oc s).1 = Panic PCycle.
 Proof. exact ensure_height_requirement_cycle. Qed.
 
+(* ---- globally: the hypothesis of the theorems above holds in every reachable state.
+   [HL s]: the greatest height seen is not negative and within the greatest height allowed, and no node is
+   higher than the greatest height seen.  For State::new_with_height(N), N >= 0, it holds after every
+   operation of every history (debug or release) up to the first one that does not return normally — and the
+   operation that would take a node above the limit is exactly one that does not (C19_height_limit_is_exact). *)
+Theorem C19_heights_within_the_limit_in_every_history :
+  forall fuel N dbg ops, 0 <= N -> while_ok (run_history fuel N dbg ops) HL.
+Proof. exact history_height_limit. Qed.
+
+Theorem C19_every_operation_keeps_heights_within_the_limit :
+  forall fuel st o, okp HL (step fuel st o).
+Proof. exact hl_step. Qed.
+
 (* non-vacuity: limit 3 admits a chain of height 3 and rejects height 4 at the stabilise that needs it;
    a bind returning a node above itself is reported as a cycle *)
 Example C19_nonvacuous_limit :
@@ -79,3 +92,5 @@ Print Assumptions C19_set_max_height_below_seen_is_refused.
 Print Assumptions C19_nested_stabilise_panics.
 Print Assumptions C19_stabilise_while_stabilising_panics.
 Print Assumptions C19_cycle_is_reported.
+Print Assumptions C19_heights_within_the_limit_in_every_history.
+Print Assumptions C19_every_operation_keeps_heights_within_the_limit.
